@@ -600,6 +600,7 @@ def run(ctx):
             st = Stress(env, "%d-%d" % (ctx.seed, i), nthreads, 1 if i % 4 == 3 else 0, 12 if quick else 25, 3)
             traces.append(st.run())
             metas.append({"kind": "stress", "seed": "%d-%d" % (ctx.seed, i), "threads": nthreads,
+                          "nraw": 1 if i % 4 == 3 else 0, "nops": 12 if quick else 25, "depth": 3,
                           "families": {str(t): f for t, f in st.fam.items()}})
             ctx.case(("stress", i))
     finally:
@@ -634,6 +635,17 @@ def run(ctx):
         ctx.sample({"kind": "TLC-simulated behaviour replayed in lock-step on %d real threads (raw: %r)"
                             % (len(threads), sorted(raw)),
                     "steps": metas[-1]["steps"][:30], "events": traces[-1]["evs"][:30]}, limit=5)
+    # ---- the same against the backend built without __thread (thorough tier)
+    if not quick:
+        hs = [m for m in metas if m["kind"] == "sim"][:400]
+        res = alt_build_run(ctx, [{"threads": m["threads"], "raw": m["raw"], "real0": m["real0"],
+                                   "steps": m["steps"]} for m in hs], 200)
+        traces += res["traces"]
+        metas += res["metas"]
+        divergences += res["divergences"]
+        for m in res["metas"]:
+            ctx.case(("nothread", m.get("seed") or json.dumps(m["steps"])))
+        ctx.cov["nothread_build_traces"] = len(res["traces"])
     # ---- verdicts
     bad = validate(ctx, traces)
     report(ctx, traces, metas, bad)
@@ -656,25 +668,78 @@ def run(ctx):
     ]
 
 
+# ------------------------------------------------------------------------------ second build of the backend
+# The backend keeps the saved errno either in a `__thread` variable (USE__THREAD, what setup.py
+# selects with gcc) or in the per-thread struct cffi_tls_s reached through pthread_getspecific
+# (misc_thread_common.h:298-311).  The thorough tier also runs stress runs and simulated behaviours
+# against a backend rebuilt from the working tree with -UUSE__THREAD, in a sub-process.
+
+def alt_build_run(ctx, histories, nstress):
+    d = core.build_backend(extra_flags=("-UUSE__THREAD",), tag="nothread")
+    work = os.path.join(ctx.tmp, "nothread")
+    os.makedirs(work, exist_ok=True)
+    inp, out = os.path.join(work, "in.json"), os.path.join(work, "out.json")
+    core.write_json(inp, {"histories": histories, "nstress": nstress, "seed": ctx.seed, "work": work})
+    env = dict(os.environ)
+    env["PYTHONPATH"] = os.pathsep.join([d, os.path.join(core.REPO, "src"), core.VERIF])
+    code = "from props import c22; c22.child_main(%r, %r, %r)" % (d, inp, out)
+    r = subprocess.run([core.PY, "-c", code], cwd=core.VERIF, env=env, capture_output=True, text=True, timeout=1800)
+    if r.returncode != 0 or not os.path.exists(out):
+        raise core.MachineryError("run against the -UUSE__THREAD backend failed (rc=%s):\n%s" % (
+            r.returncode, r.stderr[-3000:]))
+    with open(out) as f:
+        return json.load(f)
+
+
+def child_main(backend_dir, inp, out):
+    import random, _cffi_backend
+    if not os.path.abspath(_cffi_backend.__file__).startswith(backend_dir):
+        raise SystemExit("wrong backend imported: %s" % _cffi_backend.__file__)
+    with open(inp) as f:
+        job = json.load(f)
+    env = T.Env(job["work"], tag="cv22n")
+    rng = random.Random("nothread-%s" % job["seed"])
+    traces, metas, divs = [], [], []
+    for h in job["histories"]:
+        threads, raw, real0, steps = h["threads"], set(h["raw"]), {int(k): v for k, v in h["real0"].items()}, \
+            [tuple(s) for s in h["steps"]]
+        tr, div = lockstep_replay(env, rng, steps, threads, raw, real0, make_valmap(rng, [0, 1, 2]))
+        traces.append(tr)
+        metas.append({"kind": "nothread-sim", "threads": threads, "raw": sorted(raw), "real0": h["real0"],
+                      "vals": [0, 1, 2], "steps": h["steps"]})
+        divs += div
+    sys.setswitchinterval(2e-5)
+    for i in range(job["nstress"]):
+        seed = "n%s-%d" % (job["seed"], i)
+        st = Stress(env, seed, 2 + i % 3, 1 if i % 4 == 3 else 0, 25, 3)
+        traces.append(st.run())
+        metas.append({"kind": "nothread-stress", "seed": seed, "threads": 2 + i % 3, "nraw": 1 if i % 4 == 3 else 0,
+                      "nops": 25, "depth": 3})
+    core.write_json(out, {"traces": traces, "metas": metas, "divergences": divs})
+
+
 def replay(ctx, obj):
+    """Re-executes the stored case on the current tree (a lock-step behaviour step by step, a
+    stress run from its seed) and validates the new trace; the recorded trace is re-validated for
+    information."""
     rp = obj["replay"]
     ctx.cov["states"] = ctx.cov["transitions"] = 1
     meta = rp["meta"]
-    traces, metas = [rp["trace"]], [meta]
+    env = T.Env(ctx.tmp)
     if meta.get("steps"):
-        env = T.Env(ctx.tmp)
         steps = [tuple(s) for s in meta["steps"]]
         real0 = {int(k): v for k, v in meta["real0"].items()}
         tr, div = lockstep_replay(env, ctx.rng, steps, meta["threads"], set(meta["raw"]), real0,
                                   make_valmap(ctx.rng, meta["vals"]))
-        traces.append(tr)
-        metas.append(meta)
+    else:
+        tr = Stress(env, meta["seed"], meta["threads"], meta.get("nraw", 0), meta.get("nops", 12),
+                    meta.get("depth", 3)).run()
+    traces, metas = [tr, rp["trace"]], [meta, meta]
     bad = validate(ctx, traces)
-    report(ctx, traces, metas, bad)
-    print("replayed: recorded trace %s; re-execution %s" % (
-        "rejected by the ideal" if any(k == 0 for k, _, _ in bad) else "accepted",
-        ("rejected by the ideal" if any(k == 1 for k, _, _ in bad) else "accepted") if len(traces) > 1
-        else "not available (stress run)"))
+    report(ctx, traces[:1], metas[:1], [b for b in bad if b[0] == 0])
+    print("replayed: re-execution on the current tree %s; the recorded trace is %s" % (
+        "REJECTED by the ideal" if any(k == 0 for k, _, _ in bad) else "accepted",
+        "rejected by the ideal" if any(k == 1 for k, _, _ in bad) else "accepted"))
 
 
 def selftest(ctx):
